@@ -207,3 +207,55 @@ impl RecomputeHeap {
         ));
     }
 }
+
+#[cfg(cormacrelf_incremental_rs_verif)]
+impl RecomputeHeap {
+    /// Verification hook: self-consistency of the heap; returns the nodes it holds.
+    pub(crate) fn verif_audit(&self, out: &mut Vec<String>) -> Vec<NodeRef> {
+        let queues = self.queues.borrow();
+        let mut all = Vec::new();
+        let mut min_nonempty: Option<usize> = None;
+        for (h, q) in queues.iter().enumerate() {
+            let q = q.borrow();
+            if !q.is_empty() && min_nonempty.is_none() {
+                min_nonempty = Some(h);
+            }
+            for node in q.iter() {
+                if node.height_in_recompute_heap().get() != h as i32 {
+                    out.push(format!(
+                        "recompute heap: node {:?} sits in bucket {h} but height_in_recompute_heap={}",
+                        node.id(),
+                        node.height_in_recompute_heap().get()
+                    ));
+                }
+                if node.height() != h as i32 {
+                    out.push(format!(
+                        "recompute heap: node {:?} sits in bucket {h} but has height {}",
+                        node.id(),
+                        node.height()
+                    ));
+                }
+                all.push(node.clone());
+            }
+        }
+        if !self.swap.borrow().is_empty() {
+            out.push("recompute heap: swap queue not empty".into());
+        }
+        if all.len() != self.length.get() {
+            out.push(format!(
+                "recompute heap: length counter {} but {} nodes queued",
+                self.length.get(),
+                all.len()
+            ));
+        }
+        if let Some(h) = min_nonempty {
+            if self.height_lower_bound.get() > h as i32 {
+                out.push(format!(
+                    "recompute heap: height_lower_bound {} above lowest queued height {h}",
+                    self.height_lower_bound.get()
+                ));
+            }
+        }
+        all
+    }
+}
